@@ -51,6 +51,10 @@ static void body(Env& env, const std::string& stage, int n, int L, int perSide, 
              "A: " + A.str() + " | B: " + B.str() + " | alg=" + g.name + (prepared ? " prepared" : " raw") + " expected=" + (expect ? "1" : "0") + " got=" + std::to_string(got) + (what.empty() ? "" : " what=" + what) +
              "\n--- A (timbuk)\n" + ref::timbukFA(A, L, "A") + "--- B (timbuk)\n" + ref::timbukFA(B, L, "B"), w);
     }
+    // huge sparse state numbers: A shifted by 1000003, B by 2^40 (verdicts are invariant under renaming)
+    { ExplicitFiniteAut aH = ref::buildFA(ref::shift(A, 1000003)), bH = ref::buildFA(ref::shift(B, (size_t)1 << 40)); c.count("class_huge_state_numbers");
+      for (auto& g : ALGS) for (int prepared = 0; prepared < 2; prepared++) { std::string what; int got = call(aH, bH, g, prepared, &what); c.count("calls"); if (got == (expect ? 1 : 0)) continue;
+        c.viol(std::string("CheckInclusion/") + g.name + (prepared ? "/prepared" : "/raw"), got >= 2 ? "exception" : got == 1 ? "says_included_but_is_not" : "says_not_included_but_is", {"huge_sparse_state_numbers"}, "A (shifted by 1000003): " + A.str() + " | B (shifted by 2^40): " + B.str() + " | alg=" + g.name + " expected=" + (expect ? "1" : "0") + " got=" + std::to_string(got) + " " + what, w); } }
     if (ref::readBackFA(a) != A || ref::readBackFA(b) != B) c.viol("CheckInclusion", "operand_changed", {}, "A: " + A.str() + " | B: " + B.str(), w);
   };
   env.parallel(o);
